@@ -12,6 +12,7 @@ from __future__ import annotations
 import z3
 
 from .core import cur, ZAtom, PathAbort, Unsupported
+from .interp import _Return
 from .sym import SInt, SBytes, zt
 
 
@@ -65,6 +66,15 @@ def _modified_names(st):
     return out
 
 
+def require_declared(st, fr, declared, name):
+    """a loop contract that runs one symbolic iteration describes the locals it names; a local that is bound at loop entry and
+    assigned or mutated by the body in the source under check, but unknown to the contract, is loop-carried state the contract
+    says nothing about: the contract does not apply (the unit is undecided) — never reason with the entry value"""
+    extra = [v for v in _modified_names(st) if v not in declared and v in fr.env]
+    if extra:
+        raise Unsupported(f"loop contract {name}: the loop modifies locals the sidecar contract does not describe ({', '.join(extra)})")
+
+
 class Z3Loop:
     """vars: names of the local variables the loop modifies.
     inv(env, ghost) -> list of (label, z3 BoolRef);  ghost_init(env) -> dict;  ghost_havoc(path) -> dict;
@@ -115,9 +125,14 @@ class Z3Loop:
             # the havoc set is the declared one plus every local the loop body assigns or mutates in the source under check (a
             # contract that forgot one would otherwise reason with its entry value); a name that is not bound at entry is
             # written by the body before it is read (or the read is reported as an unbound name), so it needs no havoc
-            for v in list(self.vars) + [x for x in _modified_names(st) if x not in self.vars]:
+            extras = [x for x in _modified_names(st) if x not in self.vars and x != getattr(self, "_tgt", None)]
+            for v in list(self.vars) + extras:
                 if v in env:
                     env[v] = fresh_like(path, v, env[v])
+                    if v in extras:
+                        # loop-carried state the invariant does not constrain: a counter-model further down this path may be an
+                        # unreachable state, so a refutation there is only 'not proved'
+                        path.weak_invariant = (getattr(path, "weak_invariant", None) or []) + [f"{self.name}: {v}"]
             ghost = self.ghost_havoc(path) if self.ghost_havoc else {}
             for label, t in self.inv(env, ghost):
                 path.assume(t, f"invariant.{label}")
@@ -133,7 +148,16 @@ class Z3Loop:
                 path.in_source = True
                 if pre_body:
                     pre_body()
-                interp.exec_block(st.body, fr)
+                try:
+                    interp.exec_block(st.body, fr)
+                except _Return:
+                    # `return` inside the loop body: the function's postcondition is proved by the unit from this state; the
+                    # ghost state it sees is the one after this (partial) iteration
+                    path.in_source = False
+                    path.ghost[f"loop-ghost:{self.name}"] = self.ghost_step(before, ghost, env) if self.ghost_step else ghost
+                    path.ghost[f"loop-env:{self.name}"] = dict(env)
+                    path.ghost[f"loop-return:{self.name}"] = True
+                    raise
                 path.in_source = False
                 g2 = self.ghost_step(before, ghost, env) if self.ghost_step else ghost
                 self._prove_inv(path, env, g2, "preserve")
@@ -161,6 +185,9 @@ def _run_for(self, interp, st, fr):
     if not isinstance(it, SymRange) or not isinstance(st.target, ast.Name):
         raise Unsupported("loop contract on a for-loop that is not `for name in range(lo, hi)`")
     tgt = st.target.id
+    if tgt in _modified_names(st):
+        # Python's for statement iterates independently of what the body does to the target; this rule counts with the target
+        raise Unsupported(f"loop contract on a for-loop whose body assigns its own target `{tgt}`")
     lo, hi = it.lo, it.hi
     if self.for_lo is not None:
         # the contract speaks about the index as the unchanged tree counts it (from self.for_lo): show the invariant, the
@@ -169,6 +196,7 @@ def _run_for(self, interp, st, fr):
     fr.env[tgt] = lo if isinstance(lo, SInt) else SInt(z3.IntVal(lo)) if isinstance(lo, int) else lo
     if tgt not in self.vars:
         self.vars.append(tgt)
+    self._tgt = tgt
     path = cur()
     path.ghost[f"loop-range:{self.name}"] = (lo, hi)
 
